@@ -136,7 +136,7 @@ CCFBDom ==
 Rl(sym, run) == [ct |-> "rl", typ |-> 0, sym |-> sym, run |-> run]
 Sv1(syms)    == [ct |-> "sv", typ |-> 1, ss |-> 0, syms |-> syms \o Zeros(14 - Len(syms))]
 Sv2(syms)    == [ct |-> "sv", typ |-> 1, ss |-> 1, syms |-> syms \o Zeros(7 - Len(syms))]
-Dl(t, k)     == [t |-> t, ticks |-> k, rem |-> 0]
+Dl(t, k)     == [t |-> t, ticks |-> k, rem |-> 0, big |-> 0]
 MkTWCC(count, chunks, deltas, p) ==
   LET v0 == [ k |-> "TWCC", hdr |-> [p |-> FALSE, c |-> 15, t |-> 205, len |-> 0], sender |-> D4(1), media |-> D4(5),
               base |-> 258, count |-> count, ref |-> << 0, 11, 12, 13 >>, fb |-> 99, chunks |-> chunks, deltas |-> deltas ]
@@ -163,8 +163,12 @@ TWCCShapes ==
            [i \in 1..7 |-> Dl(2, i - 4)], TRUE),
     MkTWCC(65530, << Rl(0, 8191), Rl(0, 8191), Rl(0, 8191), Rl(0, 8191), Rl(0, 8191), Rl(0, 8191), Rl(0, 8191), Rl(0, 8191), Sv2(<< 1, 2 >>) >>,
            << Dl(1, 9), Dl(2, -9) >>, FALSE) }
+\* 205/15 and 206/15 share their FMT: a well-formed TWCC feedback whose octets also have the REMB shape
+\* (media SSRC 0, "REMB" where base sequence and status count are, a count octet matching the length)
+TWCCLookalike == [ MkTWCC(19778, << Rl(0, 8191), Rl(0, 8191), Rl(0, 3396) >>, << >>, FALSE) EXCEPT
+                     !.media = Zeros(4), !.base = 21061, !.ref = << 0, 2, 77, 66 >>, !.fb = 1 ]
 TWCCDom ==
-  TWCCShapes
+  TWCCShapes \cup { TWCCLookalike }
   \cup { [v EXCEPT !.sender = s] : v \in {MkTWCC(1, << Rl(1, 1) >>, << Dl(1, 7) >>, FALSE)}, s \in U32Set }
   \cup { [v EXCEPT !.media = s] : v \in {MkTWCC(1, << Rl(1, 1) >>, << Dl(1, 7) >>, FALSE)}, s \in U32Set }
   \cup { [v EXCEPT !.base = s] : v \in {MkTWCC(1, << Rl(1, 1) >>, << Dl(1, 7) >>, FALSE)}, s \in U16Set }
@@ -228,7 +232,7 @@ StarAll  == UNION { StarDom(k) : k \in AllKinds }
 \* ---- tiny domains -----------------------------------------------------------
 Tiny(k) ==
   CASE k = "SR" -> { [BaseSR EXCEPT !.reports = RBs(n)] : n \in {0, 1} }
-    [] k = "RR" -> { [BaseRR EXCEPT !.reports = RBs(n)] : n \in {0, 1} } \cup { [BaseRR EXCEPT !.ext = Ramp(4, 3)] }
+    [] k = "RR" -> { [BaseRR EXCEPT !.reports = RBs(n)] : n \in {0, 1} } \cup { [BaseRR EXCEPT !.ext = Ramp(4, 3)], [BaseRR EXCEPT !.ext = << 222, 173, 190, 239, 202, 0, 0, 3 >>] }
     [] k = "SDES" -> { BaseSDES, [k |-> "SDES", chunks |-> << Chunk1(1, << Item(2, 2) >>) >>], [k |-> "SDES", chunks |-> << >>] }
     [] k = "BYE" -> { BaseBYE, [BaseBYE EXCEPT !.reason = Ramp(2, 64)] }
     [] k = "APP" -> { BaseAPP, [BaseAPP EXCEPT !.data = Ramp(5, 32)] }
@@ -272,6 +276,8 @@ LimitDom ==
   \cup { TwccWithDelta(3, pos, 1, t) : pos \in 1..3, t \in {-1, 0, 255, 256, 300} }
   \cup { TwccWithDelta(3, pos, 2, t) : pos \in 1..3, t \in {-32769, -32768, 32767, 32768, 70000} }
   \cup { [MkTWCC(1, << Rl(1, 1) >>, << Dl(1, 7) >>, FALSE) EXCEPT !.hdr.c = c] : c \in {32, 63} }
+  \* tick counts beyond 32 bits whose low 32 bits are inside the range (a narrowing conversion would accept them)
+  \cup { MkTWCC(2, << Rl(t, 2) >>, << [Dl(t, k) EXCEPT !.big = g], Dl(t, 9) >>, FALSE) : t \in {1, 2}, k \in {0, 5, 255}, g \in {1, -1, 2, 65536} }
 
 \* ---- values whose alternative encodings are enumerated (C04) --------------------
 VarDom ==
@@ -295,7 +301,10 @@ FirstOf(S) == CHOOSE x \in S : TRUE
 ValidFrames ==
   { EncPacket({}, FirstOf(Tiny(k))) : k \in AllKinds }
   \cup { EncPacket({}, [BaseRR EXCEPT !.ext = Ramp(8, 3)]), EncPacket({}, [BaseSR EXCEPT !.ext = Ramp(4, 3)]),
-         EncPacket({}, MkXR(<< XrB("lrle"), XrB("unk") >>)), EncPacket({}, RawOf(205, 3, Ramp(8, 50))) }
+         EncPacket({}, MkXR(<< XrB("lrle"), XrB("unk") >>)), EncPacket({}, RawOf(205, 3, Ramp(8, 50))),
+         \* frames with the P bit set: an APP with unaligned data, a padded TWCC, a raw frame
+         EncPacket({}, [BaseAPP EXCEPT !.data = Ramp(5, 32)]), EncPacket({}, MkTWCC(1, << Rl(1, 1) >>, << Dl(1, 7) >>, TRUE)),
+         << 128 + 32 + 3, 199, 0, 1, 9, 9, 9, 4 >> }
 MalformedFrames ==
   { << 128, 200, 0, 1, 1, 2, 3, 4 >>,                                     \* framed SR too short for its sender info
     << 130, 201, 0, 1, 1, 2, 3, 4 >>,                                     \* RR whose count claims two blocks
@@ -303,7 +312,8 @@ MalformedFrames ==
     << 65, 200, 0, 1, 1, 2, 3, 4 >>,                                      \* version 1
     << 129, 203, 0, 0 >> }                                                \* BYE claiming a source it does not hold
 TailJunk ==
-  { << 128 >>, << 128, 200, 0 >>, << 129, 206, 0, 2, 1, 2, 3, 4 >>,       \* PLI cut after 8 of 12 octets
+  { << 0 >>, << 0, 0, 0, 0 >>, Zeros(8),                                  \* surplus null octets (not a packet: version 0)
+    << 128 >>, << 128, 200, 0 >>, << 129, 206, 0, 2, 1, 2, 3, 4 >>,       \* PLI cut after 8 of 12 octets
     << 128, 200, 255, 255 >>,                                             \* header announcing 262144 octets
     \* length fields whose octet count wraps 16 bits: 4 * (0x3FFF + 1) = 65536, 4 * (0x4000 + 1) = 65540, 4 * (0x4001 + 1) = 65544
     << 128, 192, 63, 255 >>, << 128, 192, 64, 0 >>, << 129, 203, 64, 1, 1, 2, 3, 4 >>, << 129, 206, 64, 2, 1, 2, 3, 4, 5, 6, 7, 8 >> }
@@ -363,6 +373,28 @@ PairREMB == { [BaseREMB EXCEPT !.br = x, !.ssrcs = [i \in 1..n |-> << i, 5, 6, 2
                 x \in { [s |-> 0, e |-> e, f |-> f] : e \in {0, 127, 144, 145, 190, 207, 208}, f \in {0, 8388607, 4194305} }, n \in {0, 1, 2, 255}, sd \in {D4(1), Fill(4, 255)} }
 PairCCFB == { [BaseCCFB EXCEPT !.blocks = [i \in 1..Len(ls) |-> CcBlock(<< i, 7, 7, i >>, bg + i, [j \in 1..ls[i] |-> Mb(j % 3 # 0, ((i + j) % 4) * BoolBit(j % 3 # 0), ((97 * j + i) % 8192) * BoolBit(j % 3 # 0))])]] :
                 ls \in { << 0 >>, << 1 >>, << 2 >>, << 3 >>, << 2, 0 >>, << 0, 2 >>, << 4, 0, 2 >>, << 1, 1, 1 >>, << 3, 2, 1 >>, << 2, 3, 4 >>, << 5, 0, 0, 1 >> }, bg \in {0, 65530} }
-PairAll == PairSR \cup PairRR \cup PairSDES \cup PairBYE \cup PairAPP \cup PairNACK \cup PairSLI \cup PairFIR \cup PairREMB \cup PairCCFB
 
+
+\* ---- lists with repeated equal elements (a decoder or encoder that merges or skips duplicates) ------------
+DupDom ==
+  { [BaseSR EXCEPT !.reports = << RBn(1), RBn(1) >>], [BaseRR EXCEPT !.reports = << RBn(2), RBn(2), RBn(2) >>],
+    [k |-> "SDES", chunks |-> << Chunk1(1, << Item(1, 3), Item(1, 3) >>), Chunk1(1, << Item(1, 3), Item(1, 3) >>) >>],
+    [k |-> "BYE", srcs |-> << D4(1), D4(1), D4(1) >>, reason |-> << >>],
+    [BaseNACK EXCEPT !.nacks = << Pair(7, 9), Pair(7, 9) >>], [BaseNACK EXCEPT !.nacks = << Pair(0, 0), Pair(0, 0), Pair(1, 1), Pair(1, 1) >>],
+    [BaseSLI EXCEPT !.sli = << Sli(1, 2, 3), Sli(1, 2, 3) >>], [BaseFIR EXCEPT !.fir = << Fir(D4(9), 7), Fir(D4(9), 7) >>],
+    [BaseREMB EXCEPT !.ssrcs = << D4(9), D4(9), D4(9) >>],
+    [BaseCCFB EXCEPT !.blocks = << CcBlock(D4(5), 1, << Mb(TRUE, 1, 2), Mb(TRUE, 1, 2) >>), CcBlock(D4(5), 1, << Mb(TRUE, 1, 2), Mb(TRUE, 1, 2) >>) >>],
+    MkTWCC(4, << Rl(1, 2), Rl(1, 2) >>, << Dl(1, 5), Dl(1, 5), Dl(1, 5), Dl(1, 5) >>, FALSE),
+    MkXR(<< XrB("rrt"), XrB("rrt") >>), MkXR(<< XrB("lrle"), XrB("lrle"), XrB("unk"), XrB("unk") >>),
+    MkXR(<< [XrB("dlrr") EXCEPT !.reports = << [ssrc |-> D4(1), lrr |-> D4(5), dlrr |-> D4(9)], [ssrc |-> D4(1), lrr |-> D4(5), dlrr |-> D4(9)] >>] >>),
+    MkXR(<< [XrB("lrle") EXCEPT !.chunks = << 5, 5, 5, 5 >>], [XrB("prt") EXCEPT !.times = << D4(1), D4(1) >>] >>),
+    MkXR(<< [XrB("ss") EXCEPT !.ssrc = D4(1)] >>), MkXR(<< [XrB("dlrr") EXCEPT !.reports = << [ssrc |-> D4(1), lrr |-> D4(5), dlrr |-> D4(9)] >>] >>) }
+\* ---- texts made of one octet class (UTF-8 continuation octets, 0xFF, NUL) at the lengths where formatters switch behaviour
+OctetTexts == { Fill(n, x) : n \in {1, 63, 64, 65, 66, 255}, x \in {128, 191, 255, 0, 194} }
+TextDom ==
+  { [k |-> "SDES", chunks |-> << Chunk1(1, << Item(1, 2), [t |-> 2, text |-> tx] >>) >>] : tx \in OctetTexts }
+  \cup { [BaseBYE EXCEPT !.reason = tx] : tx \in OctetTexts }
+  \cup { [BaseAPP EXCEPT !.data = tx, !.name = Fill(4, 128)] : tx \in { Fill(n, x) : n \in {1, 64, 65}, x \in {128, 255} } }
+
+PairAll == DupDom \cup TextDom \cup PairSR \cup PairRR \cup PairSDES \cup PairBYE \cup PairAPP \cup PairNACK \cup PairSLI \cup PairFIR \cup PairREMB \cup PairCCFB
 =============================================================================
